@@ -45,6 +45,53 @@ impl ValSweep {
         (None, evals)
     }
 
+    /// C15: the constructor from text, for the texts built from one character
+    fn text_char(&self, c: char) -> (Option<Failure>, u64) {
+        use sodg::Hex;
+        let mut evals = 0;
+        for t in [c.to_string(), format!("{c}ab"), format!("ab{c}"), format!("{c}{c}{c}")] {
+            evals += 1;
+            let got = caught(|| {
+                let h = Hex::from_str_bytes(&t);
+                (h.bytes().to_vec(), h.len(), h.to_utf8().ok())
+            });
+            let want = Ok((t.as_bytes().to_vec(), t.len(), Some(t.clone())));
+            if got != want {
+                return (
+                    Some(Failure { prop: "C15".into(), kind: "hex.from_str_bytes".into(), step: c as usize, detail: format!("Hex::from_str_bytes({t:?}) (character U+{:04X}): bytes/len/to_utf8 = {got:?}, the text's bytes are {:?}", c as u32, t.as_bytes()) }),
+                    evals,
+                );
+            }
+        }
+        (None, evals)
+    }
+
+    /// C15: the integer / float constructors: a = kind, b = value bits
+    fn number(&self, kind: u64, bits: u64) -> (Option<Failure>, u64) {
+        use sodg::Hex;
+        let r = caught(|| match kind {
+            0 => (Hex::from(bits as u8 as i8).bytes().to_vec(), (bits as u8 as i8).to_be_bytes().to_vec()),
+            1 => (Hex::from(bits as u16 as i16).bytes().to_vec(), (bits as u16 as i16).to_be_bytes().to_vec()),
+            2 => (Hex::from(bits as u32 as i32).bytes().to_vec(), (bits as u32 as i32).to_be_bytes().to_vec()),
+            3 => (Hex::from(f32::from_bits(bits as u32)).bytes().to_vec(), (bits as u32).to_be_bytes().to_vec()),
+            4 => {
+                let h = Hex::from(bits as i64);
+                let back = h.to_i64().ok().map(|x| x as u64);
+                (h.bytes().to_vec(), if back == Some(bits) { bits.to_be_bytes().to_vec() } else { vec![] })
+            }
+            _ => {
+                let h = Hex::from(f64::from_bits(bits));
+                let back = h.to_f64().ok().map(f64::to_bits);
+                (h.bytes().to_vec(), if back == Some(bits) { bits.to_be_bytes().to_vec() } else { vec![] })
+            }
+        });
+        let name = ["i8", "i16", "i32", "f32", "i64", "f64"][kind as usize % 6];
+        match r {
+            Ok((got, want)) if got == want => (None, 1),
+            other => (Some(Failure { prop: "C15".into(), kind: format!("hex.from_{name}"), step: 0, detail: format!("Hex::from({name} with bits {bits:#x}): bytes (or the way back) {other:?}") }), 1),
+        }
+    }
+
     /// C16: one pair of lengths, all representations; Err(known) for the open finding
     fn concat_pair(&self, la: usize, lb: usize, known: &mut u64) -> (Option<Failure>, u64) {
         let (ab, bb) = (pat(la, 0x17), pat(lb, 0xB4));
@@ -121,6 +168,37 @@ impl ValSweep {
                         v.push(("hex-length", l, 0));
                     }
                 }
+                // every scalar value as first / last / only character of a text handed to from_str_bytes
+                for c in (0..0x3000u64).chain((0x3000..0x11_0000u64).step_by(if t { 1 } else { 7 })).chain(0xFE00..=0xFFFF) {
+                    if char::from_u32(c as u32).is_some() {
+                        v.push(("text-character", c, 0));
+                    }
+                }
+                // the numeric constructors: i8 and i16 completely, the wider ones at every +-2 around
+                // each power of two (both signs) and strided through the bit patterns
+                for b in 0..256u64 {
+                    v.push(("number", 0, b));
+                }
+                for b in 0..65_536u64 {
+                    v.push(("number", 1, b));
+                }
+                for kind in 2..6u64 {
+                    let width = if kind < 4 { 32 } else { 64 };
+                    for k in 0..width {
+                        for d in [-2i64, -1, 0, 1, 2] {
+                            let p = (1u64 << k).wrapping_add(d as u64);
+                            v.push(("number", kind, if width == 32 { p & 0xFFFF_FFFF } else { p }));
+                            v.push(("number", kind, if width == 32 { p.wrapping_neg() & 0xFFFF_FFFF } else { p.wrapping_neg() }));
+                        }
+                    }
+                    let stride: u64 = if width == 32 { if t { 4099 } else { 65_537 } } else { 0x0001_0001_0001_0001u64.wrapping_mul(if t { 3 } else { 257 }) };
+                    let count = if width == 32 { (1u64 << 32) / stride } else if t { 1 << 21 } else { 1 << 16 };
+                    let mut b = 0u64;
+                    for _ in 0..count {
+                        v.push(("number", kind, if width == 32 { b & 0xFFFF_FFFF } else { b }));
+                        b = b.wrapping_add(stride);
+                    }
+                }
             }
             "C16" => {
                 let sq = if t { 200u64 } else { 96 };
@@ -163,6 +241,11 @@ impl ValSweep {
     fn one(&self, dim: &str, a: u64, b: u64, known: &mut u64) -> (Option<Failure>, u64) {
         match dim {
             "hex-length" => self.hex_len(a as usize),
+            "text-character" => match char::from_u32(a as u32) {
+                Some(c) => self.text_char(c),
+                None => (None, 0),
+            },
+            "number" => self.number(a, b),
             "concat-lengths" => self.concat_pair(a as usize, b as usize, known),
             "label-character" => match char::from_u32(a as u32) {
                 Some(c) => self.label_char(c),
